@@ -10,7 +10,7 @@ A base recipe is a name from BASES (optionally `name:param`); `build(name, env)`
   sig          'std' (a=0, b=2, *rest, k=3, **kw) or a list of explicit (args, kwargs) shapes for foreign callables
   target_ents  the entities whose conversion counts as "conversion of this target was attempted"
 """
-import collections, functools, importlib, inspect, math, operator, os, re, copy, sys, types, unittest, weakref
+import collections, decimal, functools, importlib, inspect, math, operator, os, re, copy, sys, types, unittest, weakref
 
 ZOO_SRC = r'''
 import sys, os, collections, functools, unittest
@@ -306,6 +306,43 @@ class PStr(str):
     _IS_TENSORFLOW_PLUGIN = True
 
 
+class FalsyBool(C):
+    """instances are falsy through __bool__"""
+    def __bool__(self):
+        return False
+
+
+class FalsyLen(C):
+    """instances are falsy through __len__"""
+    def __len__(self):
+        return 0
+
+
+class EmptyList(list):
+    """an empty list subclass with a method and a __call__: a falsy receiver"""
+    def m(self, a=0, b=2, *rest, k=3, **kw):
+        conv = _probe()
+        if a:
+            r = ('T', self.tag, a, b, rest, k, sorted(kw.items()))
+        else:
+            r = ('F', self.tag, a, b, rest, k, sorted(kw.items()))
+        self.log.append(('run', conv) + r)
+        return r
+
+
+class FalsyMeta(type):
+    def __len__(cls):
+        return 0
+
+
+def make_falsy_class(log):
+    """a class that is itself falsy (metaclass __len__ == 0), with a classmethod"""
+    class K(C, metaclass=FalsyMeta):
+        CLSTAG = 'CLS'
+        CLSLOG = log
+    return K
+
+
 class Mixin(object):
     def m(self, a=0, b=2, *rest, k=3, **kw):
         conv = _probe()
@@ -599,6 +636,24 @@ def build(name, env, log):
         o = Z.TC()
         o.log = log
         return Built(o.m, default_facts(kind='method', ent=method_ent(M, M, testcase=True)), self_val='SELF', binds=True)
+    if base in ('bound_falsy_bool', 'bound_falsy_len'):      # bound method of a FALSY instance
+        o = (Z.FalsyBool if base == 'bound_falsy_bool' else Z.FalsyLen)(log)
+        assert not o
+        return Built(o.m, default_facts(kind='method', ent=method_ent(M, M)), self_val='SELF', binds=True)
+    if base == 'bound_emptylist':
+        o = Z.EmptyList()
+        o.log, o.tag = log, 'SELF'
+        assert not o
+        return Built(o.m, default_facts(kind='method', ent=method_ent(M, M)), self_val='SELF', binds=True)
+    if base in ('classm_falsy', 'classm_falsy_inst'):         # classmethod bound to a FALSY class
+        K = Z.make_falsy_class(log)
+        assert not K
+        f = K.cm if base == 'classm_falsy' else K(log).cm
+        return Built(f, default_facts(kind='method', ent=method_ent(M, M)), self_val='CLS', binds=True)
+    if base == 'callobj_falsy':
+        o = Z.FalsyBool(log, 'OBJ')
+        return Built(o, default_facts(kind='callableObject', ent=ent(mod=M, call=method_ent(M, M))), self_val='OBJ', binds=True,
+                     target_ents=[Z.C.__call__])
     if base == 'mix_tc':          # a mixin method reached through a TestCase subclass: allow-listed because of its OWNER
         o = Z.MixTC()
         o.log = log
@@ -763,7 +818,19 @@ def build(name, env, log):
             'operator.add': (operator.add, 'plain', [((1, 2), None)]),
             'list.append': (None, 'plain', [(('v1',), None), (('v2',), {})]),
             'str.upper_bound': ('abc'.upper, 'plain', [((), None), ((), {})]),
+            # native callables that merely SHARE THE NAME of an overloaded builtin (they are not that builtin)
+            'operator.abs': (operator.abs, 'plain', [((-3,), None), ((cl([]),), {})]),
+            'decimal.ctx.abs': (decimal.Context(prec=2).abs, 'plain', [((decimal.Decimal('-1.2345'),), None), ((decimal.Decimal('7.777'),), {})]),
         }
+        if param.startswith('numpy.'):
+            import numpy
+            arr = numpy.array([[0, 1], [2, 3]])
+            table.update({
+                'numpy.any': (arr.any, 'plain', [((), None), ((), {'axis': 0}), ((1,), {})]),
+                'numpy.all': (arr.all, 'plain', [((), None), ((), {'axis': 1})]),
+                'numpy.sum_m': (arr.sum, 'plain', [((), None), ((0,), {})]),
+                'numpy.max_m': (arr.max, 'plain', [((), {}), ((), {'axis': 0})]),
+            })
         f, bk, sig = table[param]
         extra = {}
         if param == 'list.append':
@@ -790,7 +857,7 @@ BASES_STATIC = [
     'fn', 'gfn', 'raiser', 'lambda', 'fn_unloadedmod', 'genfn', 'forelse', 'nosource', 'execfn', 'decorated', 'lru', 'dnc',
     'tograph', 'convertwrapped', 'fn_selfattr', 'tfplugin',
     'partialmethod', 'posonly', 'staticmethod_obj',
-    'mix_tc', 'mix_plain',
+    'mix_tc', 'mix_plain', 'bound_falsy_bool', 'bound_falsy_len', 'bound_emptylist', 'classm_falsy', 'classm_falsy_inst', 'callobj_falsy',
     'bound', 'unbound', 'classm', 'classm_inst', 'staticm', 'bound_gen', 'bound_testcase', 'nt_sub_method', 'nt_inherited',
     'bound_allowcls:malt.c13fake', 'bound_sub_inherit:malt.c13fake', 'bound_sub_override:malt.c13fake',
     'callobj', 'callobj_allowcls:malt.c13fake', 'callobj_allowcall:malt.c13fake', 'callobj_gen', 'callobj_forelse',
@@ -801,7 +868,7 @@ BASES_STATIC = [
 ] + ['builtin:' + b for b in [
     'abs', 'len', 'int', 'float', 'print', 'range', 'enumerate', 'zip', 'map', 'filter', 'any', 'all', 'sorted',
     'min', 'max', 'sum', 'repr', 'isinstance', 'next', 'getattr', 'dict', 'list', 'ValueError', 'math.floor', 'operator.add',
-    'list.append', 'str.upper_bound']]
+    'list.append', 'str.upper_bound', 'operator.abs', 'decimal.ctx.abs', 'numpy.any', 'numpy.all', 'numpy.sum_m', 'numpy.max_m']]
 
 
 def desc_sexp(facts, in_cache=False, fail_override='keep'):
